@@ -265,9 +265,6 @@ EXPR_WRAPPERS = {
     # ToString for String is the blanket impl over Display: no specification possible
     ('unifiable.rs::Unifiable::replace_variables', 's.to_string()'): 'string_copy(s)',
     ('unifiable.rs::Unifiable::replace_variables', 'name.to_string()'): 'string_copy(name)',
-    # RefCell::borrow has no Verus specification; the goal of the node is only handed on
-    ('solutions.rs::solve', 'sn.borrow().goal.clone()'): 'verif_goal_of(&sn)',
-    ('solutions.rs::solve_all', 'sn.borrow().goal.clone()'): 'verif_goal_of(&sn)',
     # line_reader is generic over AsRef<Path> (File::open + BufReader::lines): external, with the assumed specification that
     # it yields the lines of the named file (spec/io.rs)
     # derived PartialEq of Goal against the variant without fields
@@ -665,6 +662,16 @@ class FnEmitter:
                         edits.append((t.start, toks[j2].end, 'nd_alloc(', None))
                         edits.append((toks[cl].start, toks[cl].start, ', Ghost(verif_depth), Ghost(verif_call_depth), Tracked(heap)', None))
                         self.counts['R15'] = self.counts.get('R15', 0) + 1
+                        # contract section [after heap-alloc]: after a statement `let NAME = rc_cell!(..);` ($NODE stands for NAME)
+                        aa = block_text('after heap-alloc')
+                        if aa:
+                            b4 = [prev_sig(toks, k)]
+                            for _ in range(2):
+                                b4.append(prev_sig(toks, b4[-1]))
+                            nxa = next_sig(toks, cl)
+                            if toks[b4[0]].text == '=' and toks[b4[1]].kind == 'id' and toks[b4[2]].text == 'let' and toks[nxa].text == ';':
+                                nm = toks[b4[1]].text
+                                edits.append((toks[nxa].end, toks[nxa].end, ('\n', [(l.replace('$NODE', nm), o) for l, o in aa], ''), 'block2'))
                         k = j2
                 k += 1
         if in_heap:
@@ -708,6 +715,36 @@ class FnEmitter:
                         if q == bclose:
                             scope_end_at_bclose = True
                         k = sq[9]
+                k += 1
+            # R15c'  a RefMut that lives for one statement:  N.borrow_mut().F = E;  ->  { nd_borrow_mut(&N, ..); nd_set_F(&N, E, ..); nd_release(&N, ..); }
+            k = bopen
+            while k < bclose:
+                t = toks[k]
+                if t.kind == 'id' and t.text == 'borrow_mut':
+                    pd = prev_sig(toks, k)
+                    pn = prev_sig(toks, pd)
+                    ppn = prev_sig(toks, pn)
+                    sq = sig_seq0(toks, k, 6, bclose)
+                    tx = [toks[i].text for i in sq]
+                    if (toks[pd].text == '.' and toks[pn].kind == 'id' and toks[ppn].kind == 'p' and toks[ppn].text in (';', '{', '}')
+                            and len(tx) >= 6 and tx[1:4] == ['(', ')', '.'] and toks[sq[4]].kind == 'id' and tx[5] == '='
+                            and not (toks[next_sig(toks, sq[5])].text == '=' and toks[next_sig(toks, sq[5])].start == toks[sq[5]].end)):
+                        N, F = toks[pn].text, tx[4]
+                        q = sq[5]
+                        depth = 0
+                        while q < bclose:
+                            tq = toks[q]
+                            if tq.kind == 'p' and tq.text in '([{':
+                                depth += 1
+                            elif tq.kind == 'p' and tq.text in ')]}':
+                                depth -= 1
+                            elif tq.kind == 'p' and tq.text == ';' and depth == 0:
+                                break
+                            q += 1
+                        edits.append((toks[pn].start, toks[sq[5]].end, '{ nd_borrow_mut(&%s, Tracked(heap)); nd_set_%s(&%s,' % (N, F, N), None))
+                        edits.append((toks[q].start, toks[q].end, ', Tracked(heap)); nd_release(&%s, Tracked(heap)); }' % N, None))
+                        self.counts['R15'] = self.counts.get('R15', 0) + 1
+                        k = q
                 k += 1
             k = bopen
             while k < bclose:
